@@ -7,10 +7,13 @@ int count = 0;         // executions seen (capped at nth+1 so that the state sta
 string hostile = "";   // operation performed by the verb "act"
 int period = 2;        // re-arm delay of the call_out chains
 int hret = 1;          // what the verb returns after the hostile operation
+string kind2 = "";     // second fault (two faults within one tick interval): task kind
+int nth2 = 0, count2 = 0;
 int st = 0;            // self-test of the check: 2 = heart-beat object 1 silently stops beating
 
 void create() { seteuid(getuid()); }
 void set_plan(string k, int p, int n, int e) { kind = k; pos = p; nth = n; every = e; count = 0; }
+void set_plan2(string k, int n) { kind2 = k; nth2 = n; count2 = 0; }
 void set_hostile(string h, int r) { hostile = h; hret = r; }
 void set_period(int p) { period = p; }
 void set_st(int s) { st = s; }
@@ -21,6 +24,10 @@ int query_period() { return period; }
 int query_count() { return count; }
 
 int hit(string k, int p) {
+  if (k == kind2 && nth2) {            // the second fault fails once, at its nth2-th execution
+    if (count2 <= nth2) count2++;
+    if (count2 == nth2) return 1;
+  }
   if (k != kind) return 0;
   if (pos >= 0 && p != pos) return 0;
   if (count <= nth) count++;
@@ -30,11 +37,17 @@ int hit(string k, int p) {
 
 // objects that exist before the backend loop starts (as preloaded objects would)
 object *hbs = ({});
+object *rss = ({});
 void boot() {
   int i;
   for (i = 0; i < 3; i++) { object o = new("/c09/hb"); o->set_id(i); hbs += ({ o }); }
   "/c09/co"->start();
-  "/c09/rs"->touch();
-  "/c09/cu"->touch();
+  for (i = 0; i < 3; i++) { object o = new("/c09/rs"); o->set_id(i); rss += ({ o }); }
+  for (i = 0; i < 3; i++) { object o = new("/c09/cu"); o->set_id(i); }
 }
 void hb_off() { if (hbs[0]) hbs[0]->off(); }
+// every beat of heart-beat object 0 touches the three reset objects, so that they leave the "reset state" again
+void touch_rs() { int i; for (i = 0; i < sizeof(rss); i++) if (rss[i]) rss[i]->touch(); }
+// between the two faults: switch the heart beat of the objects that lost it back on / destruct the failing object
+void hb_reenable() { int i; for (i = 0; i < 3; i++) if (hbs[i] && !query_heart_beat(hbs[i])) hbs[i]->on(); }
+void hb_destruct() { int p = pos < 0 ? 0 : pos; if (hbs[p]) { debug_message("@@hbgone " + p); destruct(hbs[p]); } }
